@@ -115,10 +115,34 @@ func scale60(r [][2]int) [][2]int {
 // c16AsCollection: the Geometry entry point receives the polygons as members of a Collection.
 var c16Unclosed, c16AsCollection bool
 
+// c16Axes, when set, replaces the uniform scaling of the lattice by one strictly increasing table per axis (lattice
+// coordinate -> float64). For figures whose edges are all parallel to the axes that is an isomorphism: every crossing
+// has one coordinate of the box and one of a vertex, so results are mapped back through the inverse tables exactly.
+// It lets lattice figures be handed over at mixed scales (two lines 2e-17 apart next to zero, a box that ends at -2).
+var c16Axes *[2]map[int]float64
+
 func c16Smart(c *ctx, fn string, box [4]int, in [][][][2]int, o int) {
 	s := float64(c16S) * figScale()
 	b := toBound(box, s)
 	g := mpOf(in, s)
+	var inv [2]map[float64]int
+	if c16Axes != nil {
+		for ax := 0; ax < 2; ax++ {
+			inv[ax] = map[float64]int{}
+			for k, v := range c16Axes[ax] {
+				inv[ax][v] = k
+			}
+		}
+		at := func(p [2]int) orb.Point { return orb.Point{c16Axes[0][p[0]], c16Axes[1][p[1]]} }
+		b = orb.Bound{Min: at([2]int{box[0], box[1]}), Max: at([2]int{box[2], box[3]})}
+		for i := range in {
+			for j := range in[i] {
+				for k := range in[i][j] {
+					g[i][j][k] = at(in[i][j][k])
+				}
+			}
+		}
+	}
 	if r0 := in[0][0]; c16Unclosed && len(r0) >= 4 && r0[0] == r0[len(r0)-1] &&
 		r0[0][0] > box[0] && r0[0][0] < box[2] && r0[0][1] > box[1] && r0[0][1] < box[3] {
 		crosses := false // a ring wholly inside comes back unchanged, closed or not: only rings that leave the box count here
@@ -186,6 +210,23 @@ func c16Smart(c *ctx, fn string, box [4]int, in [][][][2]int, o int) {
 		return
 	}
 	q, ok := quantMP(out, s)
+	if c16Axes != nil {
+		q, ok = make([][][][2]int, 0, len(out)), true
+		for _, poly := range out {
+			pc := make([][][2]int, 0, len(poly))
+			for _, r := range poly {
+				rc := make([][2]int, 0, len(r))
+				for _, v := range r {
+					x, okx := inv[0][v[0]]
+					y, oky := inv[1][v[1]]
+					ok = ok && okx && oky
+					rc = append(rc, [2]int{x, y})
+				}
+				pc = append(pc, rc)
+			}
+			q = append(q, pc)
+		}
+	}
 	if !ok {
 		c.emit(map[string]interface{}{"k": "offlattice", "fn": "smartclip." + fn, "in": e})
 		return
@@ -522,6 +563,86 @@ func init() {
 			} else {
 				c16Smart(c, []string{"MultiPolygon", "Geometry"}[c.rng.Intn(2)], box, in, o)
 			}
+		}
+		// (4) combs at mixed scales: a rectangle around the box with one or two slits cut into it from one side, the slits
+		// ending inside the box or running right through it. All edges are parallel to the axes, so the figure is handed
+		// over through per-axis tables (c16Axes): the box from -2 to 3 and -1 to 2, and the two walls of a slit a few
+		// 1e-17 apart next to zero (or subnormal, or a hair beside one another at 1e9) - different float64 values whose
+		// distance from the box's corner is the same number. Turned to all four sides, both windings.
+		for i := 0; i < c.pick(400, 8000); i++ {
+			// figure space (slits come in from the left): x in {0 outer, 2 box, tip, 6 box, 8 outer}, y likewise with the slit walls
+			// at distinct heights strictly between the box lines; lattice = grid x 60
+			// candidate wall heights (grid 2..6 -> 120..360), all below the middle of the box: smartclip puts the midpoint of a
+			// side into the rings it closes along the outline, so the tables have to map middle to middle (240 -> 0.5)
+			ys := []int{130, 140, 150, 170, 190, 200, 210, 225}
+			c.rng.Shuffle(len(ys), func(a, b int) { ys[a], ys[b] = ys[b], ys[a] })
+			nsl := 1 + c.rng.Intn(2)
+			walls := append([]int{}, ys[:2*nsl]...)
+			sort.Ints(walls)
+			tip := []int{180, 240, 300, 420}[c.rng.Intn(4)] // inside the box, or beyond its far side
+			ring := [][2]int{{0, 0}, {480, 0}, {480, 480}, {0, 480}}
+			for j := nsl - 1; j >= 0; j-- { // down the left side, top slit first
+				ring = append(ring, [2]int{0, walls[2*j+1]}, [2]int{tip, walls[2*j+1]}, [2]int{tip, walls[2*j]}, [2]int{0, walls[2*j]})
+			}
+			// the tables: outer lines and box lines fixed, the walls squeezed together
+			tight := [][]float64{{1e-17, 3e-17, 5e-17, 7e-17}, {-7e-17, -5e-17, -3e-17, -1e-17}, {5e-324, 1e-323, 1.5e-323, 2e-323},
+				{0.1, 0.2, 0.3, 0.4}, {1e-17, 3e-17, 0.25, 0.25000000000000006}, {-1e-300, 1e-300, 1e-17, 0.4}}[c.rng.Intn(6)]
+			yt := map[int]float64{0: -5, 120: -1, 240: 0.5, 360: 2, 480: 5}
+			for j, w := range walls {
+				yt[w] = tight[j]
+			}
+			xt := map[int]float64{0: -5, 120: -2, 180: -1, 240: 0.5, 300: 2.5, 360: 3, 420: 4, 480: 6}
+			rot := c.rng.Intn(4)
+			turn := func(p [2]int) [2]int { // quarter turns about the centre of the figure (240, 240)
+				x, y := p[0]-240, p[1]-240
+				switch rot {
+				case 1:
+					x, y = -y, x
+				case 2:
+					x, y = -x, -y
+				case 3:
+					x, y = y, -x
+				}
+				return [2]int{x + 240, y + 240}
+			}
+			// the tables turn with the figure: a table read backwards is negated to stay increasing
+			axes := [2]map[int]float64{{}, {}}
+			for k, v := range xt {
+				q := turn([2]int{k, 0})
+				switch rot {
+				case 0:
+					axes[0][q[0]] = v
+				case 1:
+					axes[1][q[1]] = v
+				case 2:
+					axes[0][q[0]] = -v
+				case 3:
+					axes[1][q[1]] = -v
+				}
+			}
+			for k, v := range yt {
+				q := turn([2]int{0, k})
+				switch rot {
+				case 0:
+					axes[1][q[1]] = v
+				case 1:
+					axes[0][q[0]] = -v
+				case 2:
+					axes[1][q[1]] = -v
+				case 3:
+					axes[0][q[0]] = v
+				}
+			}
+			var rr [][2]int
+			for _, p := range ring {
+				rr = append(rr, turn(p))
+			}
+			o := 1 - 2*c.rng.Intn(2)
+			in := [][][][2]int{{closed(orient(rr, o))}}
+			c16Unclosed, c16AsCollection = false, false
+			c16Axes = &axes
+			c16Smart(c, []string{"Ring", "Polygon", "MultiPolygon", "Geometry"}[c.rng.Intn(4)], [4]int{120, 120, 360, 360}, in, o)
+			c16Axes = nil
 		}
 	})
 }
